@@ -703,6 +703,24 @@ theorem extendSlice_char (st : ArgsSt) (lo hi : Option Int) (h : Inv st) :
   · exact Or.inl hx
   · exact Or.inr ⟨o, specSlice_sub _ _ _ _ ho, rfl⟩
 
+/-- `args.extend(args)`: never fails, doubles the list, allocates nothing. -/
+theorem extendSelf_char (st : ArgsSt) (h : Inv st) :
+    ∃ st', Args.extendSelf st = (st', .none) ∧ st'.lst = st.lst ++ st.lst ∧
+      st'.next = st.next ∧ Inv st' ∧ (∀ x ∈ st'.all, x ∈ st.all ∨ ∃ o ∈ st.lst, x = .grp o) :=
+  extend_args st st.lst h h.args
+
+/-- Extending by the list itself is extending by its full slice. -/
+theorem extendSelf_eq_extendSlice (st : ArgsSt) (h : Inv st) :
+    Args.extendSelf st = Args.extendSlice st none none := by
+  unfold Args.extendSlice Args.construct Args.extendSelf
+  have hl : pySlice st.lst none none = st.lst := by simp [pySlice, pySliceBound]
+  rw [hl]
+  rcases extend_args (.empty st.next) st.lst (inv_empty _) h.args with ⟨src, h1, h2, _, _, _⟩
+  rw [h1]
+  simp only
+  have : src.lst = st.lst := by simp [h2, ArgsSt.empty]
+  rw [this]
+
 /-- `a.extend(b)` for a `TexArgs` `b`: never fails, appends `b`'s list, allocates nothing. -/
 theorem extendBy_char (a b : ArgsSt) (ha : Inv a) (hb : Inv b) :
     ∃ a', Args.extendBy a b = (a', .none) ∧ a'.lst = a.lst ++ b.lst ∧
@@ -791,6 +809,10 @@ theorem step_core (st : ArgsSt) (op : ArgsOp) (h : Inv st) :
   | extendSlice lo hi =>
     simp only [Args.step, specStep, abs]
     rcases extendSlice_char st lo hi h with ⟨st', hs, hl, hn, hinv, _⟩
+    rw [hs]; exact ⟨by rw [hl, hn], hinv, trivial⟩
+  | extendSelf =>
+    simp only [Args.step, specStep, abs]
+    rcases extendSelf_char st h with ⟨st', hs, hl, hn, hinv, _⟩
     rw [hs]; exact ⟨by rw [hl, hn], hinv, trivial⟩
 
 /-! ## The pool of the property: plain groups -/
@@ -931,6 +953,18 @@ theorem plain_step (st : ArgsSt) (op : ArgsOp) (h : Inv st) (hp : PlainSt st)
       rcases List.mem_append.mp ho with ho | ho
       · exact hp.lst o ho
       · exact hp.lst o (specSlice_sub _ _ _ _ ho)
+    · intro x hx
+      rcases hall x hx with hx | ⟨o, ho, rfl⟩
+      · exact hp.all x hx
+      · exact hp.lst o ho
+  | extendSelf =>
+    simp only [Args.step]
+    rcases extendSelf_char st h with ⟨st', hs, hl, _, _, hall⟩
+    rw [hs]
+    constructor
+    · intro o ho
+      rw [hl] at ho
+      rcases List.mem_append.mp ho with ho | ho <;> exact hp.lst o ho
     · intro x hx
       rcases hall x hx with hx | ⟨o, ho, rfl⟩
       · exact hp.all x hx
